@@ -140,6 +140,34 @@ def judge(case):
                 res["sig_ign"], res["sig_blk"] = x.get("sig_ign"), x.get("sig_blk")
                 return ("violated", "C02:stage-started-with-SIGPIPE-%s" % (
                     "ignored" if x.get("sig_ign", 0) & (1 << 13) else "blocked"), res)
+    # (a'') wiring: stage i's stdout and stage i+1's stdin are the two ends of one pipe that no other link shares; the first
+    # stage reads what the shell reads, the last one writes where the shell writes, every stage keeps the shell's stderr,
+    # and no stage holds any other descriptor
+    first = {i: lst[0][1] for i, lst in starts.items() if lst}
+    pipes_seen = {}
+    for i in sorted(first):
+        x = first[i]
+        std = x.get("std") or [None, None, None]
+        what = None
+        if x.get("open_fds") not in (None, [0, 1, 2]):
+            what = "stage-holds-extra-descriptors"
+        elif std[2] is None or std[2][1] != r.stderr_ino:
+            what = "stage-stderr-is-not-the-shells"
+        elif i == 0 and (std[0] is None or std[0][2] != "chr"):
+            what = "first-stage-stdin-is-not-the-shells"
+        elif i == n - 1 and (std[1] is None or std[1][1] != r.stdout_ino):
+            what = "last-stage-stdout-is-not-the-shells"
+        elif i + 1 in first:
+            nxt = (first[i + 1].get("std") or [None])[0]
+            if std[1] is None or nxt is None or std[1][2] != "fifo" or nxt[2] != "fifo" or std[1][1] != nxt[1]:
+                what = "adjacent-stages-are-not-joined-by-one-pipe"
+            elif std[1][1] in pipes_seen:
+                what = "one-pipe-serves-two-links"
+            else:
+                pipes_seen[std[1][1]] = i
+        if what:
+            res["wiring"] = {"stage": i, "std": std, "open_fds": x.get("open_fds")}
+            return ("violated", "C02:wiring:%s:%s" % (what, feat), res)
     # every vp_st stage that was not killed before logging must have ended
     for i, st in enumerate(stages):
         if st["kind"] in ("src", "flt", "snk", "noread") and len(ends.get(i, [])) != 1:
